@@ -294,11 +294,19 @@ def gen(repo):
                    r"std::string\s+out\s*\(\s*buf\s*\)\s*;\s*if\s*\(\s*out\.find_first_of\s*\(\s*\"([^\"]*)\"\s*\)\s*==\s*std::string::npos\s*\)\s*\{\s*out\s*\+=\s*\"([^\"]*)\"\s*;\s*\}\s*return\s+out\s*;", fd, re.S)
     if not mf:
         raise TranslateError("_formatDouble: shape changed")
+    # the scratch buffer must be an automatic array: a `static`/`thread_local` one would be shared between calls (data race)
+    bufs = re.findall(r"([^;{}]*?)\bchar\s+buf\s*\[\s*(\d+)\s*\]\s*;", fd)
+    if len(bufs) != 1 or bufs[0][0].strip() != "":
+        raise TranslateError("_formatDouble: the buffer is not declared as a plain automatic `char buf[N];` (found %r)" % (bufs,))
+    if int(bufs[0][1]) < 32:
+        raise TranslateError("_formatDouble: buffer of %s bytes is too small for %%.17g (24 characters + NUL)" % bufs[0][1])
     t += "/-- `_formatDouble`: text for non-finite values, first and last precision tried, printf format, characters that mark a\n"
     t += "    double-shaped token, suffix appended when none is present -/\n"
     t += "def fmtNonFinite : String := %s\ndef fmtPrecLo : Nat := %s\ndef fmtPrecHi : Nat := %s\ndef fmtFormat : String := %s\n" % (
         lean_str(mf.group(1)), mf.group(2), mf.group(3), lean_str(mf.group(4)))
     t += "def fmtMarkers : List Nat := %s\ndef fmtSuffix : List Nat := %s\n" % (nat_list(str_lit(mf.group(5))), nat_list(str_lit(mf.group(6))))
+    t += "/-- `_formatDouble`'s scratch buffer: automatic storage, size -/\n"
+    t += "def fmtBufAutomatic : Bool := true\ndef fmtBufSize : Nat := %s\n" % bufs[0][1]
     # separators of arrays/objects
     sa = fn_body(src, "_serializeArray")
     sob = fn_body(src, "_serializeObject")
@@ -317,18 +325,26 @@ def gen(repo):
 
     # ---- delegated primitives, insertion form
     sk = fn_body(src, "_skipWhitespace")
-    mw = re.fullmatch(r"\s*while\s*\(\s*_pos\s*<\s*_text\.size\(\)\s*&&\s*([\w:]+)\s*\(\s*_text\[_pos\]\s*\)\s*\)\s*\{\s*\+\+_pos\s*;\s*\}\s*", sk)
+    ARG = r"(static_cast<unsigned char>\(\s*_text\[_pos\]\s*\)|_text\[_pos\])"
+    mw = re.fullmatch(r"\s*while\s*\(\s*_pos\s*<\s*_text\.size\(\)\s*&&\s*([\w:]+)\s*\(\s*" + ARG + r"\s*\)\s*\)\s*\{\s*\+\+_pos\s*;\s*\}\s*", sk)
     if not mw:
         raise TranslateError("_skipWhitespace: shape changed")
-    digs = set(re.findall(r"([\w:]+)\s*\(\s*_text\[_pos\]\s*\)", pn))
-    if len(digs) != 1:
-        raise TranslateError("_parseNumber: more than one character class predicate: %s" % sorted(digs))
+    calls = re.findall(r"(std::is\w+)\s*\(\s*" + ARG + r"\s*\)", pn)
+    digs = set(c[0] for c in calls)
+    if len(digs) != 1 or len(calls) != len(re.findall(r"std::is\w+\s*\(", pn)):
+        raise TranslateError("_parseNumber: character class calls changed: %s" % sorted(digs))
+    # the <cctype> functions are undefined for negative arguments other than EOF: every call must convert the (plain) char first
+    argkinds = set("unsigned char" if a.startswith("static_cast") else "char" for a in [mw.group(2)] + [c[1] for c in calls])
+    if len(argkinds) != 1:
+        raise TranslateError("character class calls mix plain char and unsigned char arguments")
     mi = re.search(r"std::(\w+)\s+i\s*;\s*auto\s+result\s*=\s*([\w:]+)\s*\(\s*numStr\.data\(\)\s*,\s*numStr\.data\(\)\s*\+\s*numStr\.size\(\)\s*,\s*i\s*\)\s*;\s*if\s*\(\s*result\.ec\s*==\s*std::errc\{\}\s*\)", pn)
     dbl = set(re.findall(r"double\s+d\s*=\s*([\w:]+)\s*\(\s*std::string\(numStr\)\.c_str\(\)", pn))
     if not mi or len(dbl) != 1:
         raise TranslateError("_parseNumber: conversion calls changed")
     t += "/-- primitives the parser delegates to (their behaviour is a stated assumption of the model) -/\n"
     t += "def wsPredicate : String := %s\ndef digitPredicate : String := %s\n" % (lean_str(mw.group(1)), lean_str(sorted(digs)[0]))
+    t += "/-- type of the argument handed to the <cctype> predicates (plain `char` is undefined behaviour for bytes >= 0x80) -/\n"
+    t += "def charClassArg : String := %s\n" % lean_str(sorted(argkinds)[0])
     t += "def intType : String := %s\ndef intConversion : String := %s\ndef doubleConversion : String := %s\n" % (
         lean_str(mi.group(1)), lean_str(mi.group(2)), lean_str(sorted(dbl)[0]))
     ins = re.findall(r"obj\s*\[\s*key\.getString\(\)\s*\]\s*=\s*std::move\(value\)\s*;", po)
